@@ -67,7 +67,7 @@ GWord == phase = "gen" /\ (Top(open).k = "envb" => Top(open).ty # "itemize")
 GCmd == phase = "gen" /\ (Top(open).k = "envb" => Top(open).ty # "itemize")
         /\ Add(Item("cmd", CHARLVL, D, ""), Top(open).id, open, D)
 GPar == phase = "gen" /\ InBlockContext /\ (Top(open).k = "envb" => Top(open).ty # "itemize")
-        /\ stream # <<>> /\ stream[Len(stream)].k \in {"word", "cmd", "grpe", "enve"}
+        /\ stream # <<>> /\ stream[Len(stream)].k \in {"word", "cmd", "grpe", "enve", "scmd"}
         /\ Add(Item("par", PARLVL, D, ""), Top(open).id, open, D)
 
 RECURSIVE CloseSecs(_, _)
@@ -82,6 +82,13 @@ GSec(l) == /\ phase = "gen" /\ OnlySectionsOpen /\ l \in 1..3
            /\ LET o == CloseSecs(StripDecls(open), l)
                   id == Len(stream) + 1
               IN Add(Item("sec", l, D, ""), Top(o).id, Append(o, [id |-> id, k |-> "sec", lvl |-> l, ty |-> "", d0 |-> D]), D)
+
+(* a section-level command that holds no content of its own (\printindex): it ends the open sectioning units of its level
+   like a section does, but what follows it belongs to the enclosing unit again *)
+NSCmds == Cardinality({i \in 1..Len(stream) : stream[i].k = "scmd"})
+GSCmd == /\ phase = "gen" /\ OnlySectionsOpen /\ NSCmds < 1
+         /\ LET o == CloseSecs(StripDecls(open), 1)
+            IN Add(Item("scmd", 1, D, ""), Top(o).id, o, D)
 
 GEnvBegin(e) == /\ phase = "gen" /\ InBlockContext /\ (Top(open).k = "envb" => Top(open).ty # "itemize")
                 /\ Len(open) < MaxDepth + 1 /\ e \in {"quote", "itemize"}
@@ -151,7 +158,7 @@ Run ==
 Finish == /\ phase = "run" /\ q > Len(stream) /\ Len(stack) = 1
           /\ phase' = "done" /\ UNCHANGED <<stream, intended, open, D, q, stack, parent, kids>>
 
-Next == GWord \/ GCmd \/ GPar \/ GDecl \/ GEnvEnd \/ GItem \/ GGrpBegin \/ GGrpEnd \/ GDone \/ Run \/ Finish
+Next == GWord \/ GCmd \/ GPar \/ GDecl \/ GSCmd \/ GEnvEnd \/ GItem \/ GGrpBegin \/ GGrpEnd \/ GDone \/ Run \/ Finish
         \/ (\E l \in 1..3 : GSec(l)) \/ (\E e \in {"quote", "itemize"} : GEnvBegin(e))
 Spec == Init /\ [][Next]_vars
 
